@@ -17,6 +17,7 @@ import Driver.C16
 import Driver.C17
 import Driver.C18
 import Driver.C19
+import Driver.MemPool
 
 /-- `sqfsmodel <cNN> [args]`: dispatch to the per-property line-protocol driver (`Driver/CNN.lean`). -/
 def main (args : List String) : IO UInt32 := do
@@ -40,4 +41,5 @@ def main (args : List String) : IO UInt32 := do
   | "c17" :: r => Driver.C17.run r; return 0
   | "c18" :: r => Driver.C18.run r; return 0
   | "c19" :: r => Driver.C19.run r; return 0
+  | "mempool" :: r => Driver.MemPool.run r; return 0
   | _ => IO.eprintln "usage: sqfsmodel <c01..c19> [args]"; return 2
